@@ -44,6 +44,12 @@ func c13Rules(p *core.Prog, r *core.Run) {
 	dht := p.Func(DNS, "(decoder).https")
 	dopt := p.Func(DNS, "(decoder).opt")
 	nl := p.Func(DNS, "(decoder).nameLabels")
+	if nl == nil {
+		// the label walk written into the name decoder itself
+		if nm := p.Func(DNS, "(decoder).name"); nm != nil && len(callSites(p, []*ssa.Function{nm}, `\(\*cryptobyte\.String\)\.ReadUint8LengthPrefixed`)) > 0 {
+			nl = nm
+		}
+	}
 	pad := p.Func(DNS, "(*Message).AddPadding")
 	rc := p.Func(DNS, "(Message).ResponseCode")
 	for name, f := range map[string]*ssa.Function{"Message.Bytes": mb, "RR.Bytes": rb, "decode": dec, "rr": drr, "https": dht, "opt": dopt, "nameLabels": nl, "AddPadding": pad, "ResponseCode": rc} {
@@ -178,7 +184,7 @@ func c13Rules(p *core.Prog, r *core.Run) {
 	c13Padding(p, r, pad, mb, rbS)
 
 	// --- RC
-	c13RCode(p, r, rc)
+	c13RCode(p, r, rc, "C13.RC")
 }
 
 func between(s, start, end string) string {
@@ -270,25 +276,35 @@ func c13Counts(p *core.Prog, r *core.Run, dec *ssa.Function) {
 	want := map[int]string{2: "Question", 3: "Answer", 4: "Authority", 5: "Additional"}
 	got := map[int]string{}
 	for h, body := range core.Loops(dec) {
-		iff, ok := h.Instrs[len(h.Instrs)-1].(*ssa.If)
-		if !ok {
-			continue
-		}
-		f := p.FactOf(core.Guard{Cond: iff.Cond, Pol: true, If: iff})
-		if f.R == nil {
-			continue
-		}
+		// the loop's bound: tested at the top, or at the bottom of a loop go/ssa
+		// has rotated (`for range int(count)`)
 		idx := -1
-		f.R.Walk(func(e *core.Expr) bool {
-			if e.Op == "out" {
-				for i, rd := range reads {
-					if e.Val == rd.Instr.(ssa.Value) {
-						idx = i
+		tests := []*ssa.BasicBlock{h}
+		for _, pr := range h.Preds {
+			if body[pr] && pr != h {
+				tests = append(tests, pr)
+			}
+		}
+		for _, tb := range tests {
+			iff, ok := tb.Instrs[len(tb.Instrs)-1].(*ssa.If)
+			if !ok {
+				continue
+			}
+			f := p.FactOf(core.Guard{Cond: iff.Cond, Pol: true, If: iff})
+			if f.R == nil {
+				continue
+			}
+			f.R.Walk(func(e *core.Expr) bool {
+				if e.Op == "out" {
+					for i, rd := range reads {
+						if e.Val == rd.Instr.(ssa.Value) {
+							idx = i
+						}
 					}
 				}
-			}
-			return true
-		})
+				return true
+			})
+		}
 		if idx < 0 {
 			continue
 		}
@@ -361,8 +377,40 @@ func c13Counts(p *core.Prog, r *core.Run, dec *ssa.Function) {
 	r.Check("C13.HDR", "counts", ok, p.Pos(dec.Pos()), "header word -> section it counts: %v (RFC: 2 qdcount->Question, 3 ancount->Answer, 4 nscount->Authority, 5 arcount->Additional)", got)
 }
 
+// decoderRejections: the SVCB/HTTPS decoders turn RDATA down only when a read
+// fails (or a sub-decoder does): what the encoder - or another conforming
+// implementation - writes is never refused for a reason of the decoder's own
+// (an ordering rule applied with the wrong start value rejects key 0, say).
+func decoderRejections(p *core.Prog, r *core.Run, dec *ssa.Function, rule string) {
+	n := 0
+	for _, ret := range core.Returns(dec) {
+		if lastResultNil(ret) {
+			continue
+		}
+		n++
+		fs := p.Facts(ret.Block())
+		why := "no condition"
+		ok := false
+		if len(fs) > 0 {
+			f := fs[0]
+			why = f.String()
+			switch {
+			case f.Op == "false" && f.L.Op == "call" && matches(`\(\*cryptobyte\.String\)\.(Read|Skip|Copy).*`, f.L.Name):
+				ok = true
+			case f.Op == "!=" && f.R != nil && f.R.Name == "nil" && f.L.Op == "ext" && f.L.Args[0].Op == "call" && f.L.Args[0].Fn != nil && inModule(p, f.L.Args[0].Fn):
+				ok = true
+			}
+		}
+		r.Check(rule, fmt.Sprintf("%s:rejects-malformed-only#%d", p.FuncName(dec), n), ok, p.InstrPos(ret), "%s refuses its input only because a read (or a sub-decoder) failed; here: %s", p.FuncName(dec), shortStr(why))
+	}
+}
+
 func c13RData(p *core.Prog, r *core.Run, rb, drr, dht, dopt *ssa.Function, rbS string) {
 	lits := core.Closures(rb)
+	decoderRejections(p, r, dht, "C13.RDATA")
+	if sv := p.Func(DNS, "(decoder).svcb"); sv != nil {
+		decoderRejections(p, r, sv, "C13.RDATA")
+	}
 	// the HTTPS/SVCB and OPT decoders succeed only at the end of the RDATA:
 	// whatever the encoder wrote (parameters of an alias-mode record, say) is
 	// read back, nothing is left behind unread
@@ -429,17 +477,34 @@ func c13RData(p *core.Prog, r *core.Run, rb, drr, dht, dopt *ssa.Function, rbS s
 			_ = fs
 		}
 	}
-	// the encoder's type test: rr.Type == 2 || 5 || 12
+	// the encoder's type test: every way into the name-encoding call is a
+	// "Type == K" edge (however the disjunction is spelled: ||, a negated &&,
+	// a switch case list); the Ks are the types whose data is a name
 	types := map[string]bool{}
-	for _, l := range lits {
-		for _, b := range l.Blocks {
-			if iff, ok := b.Instrs[len(b.Instrs)-1].(*ssa.If); ok {
-				f := p.FactOf(core.Guard{Cond: iff.Cond, Pol: true, If: iff})
-				if f.Op == "==" && f.L.Op == "field" && f.L.Name == "Type" && f.R != nil && f.R.Op == "const" {
-					types[f.R.Name] = true
+	for _, s := range callSites(p, lits, `dns\.addName`) {
+		if a := s.X.Args[1]; !(a.Op == "ext" && a.Args[0].Op == "assert" && a.Args[0].Name == "string") {
+			continue
+		}
+		var into func(b *ssa.BasicBlock, depth int)
+		into = func(b *ssa.BasicBlock, depth int) {
+			for _, pr := range b.Preds {
+				found := false
+				if iff, ok := pr.Instrs[len(pr.Instrs)-1].(*ssa.If); ok && pr.Succs[0] != pr.Succs[1] {
+					f := p.FactOf(core.Guard{Cond: iff.Cond, Pol: pr.Succs[0] == b, If: iff})
+					if f.Op == "==" && f.L.Op == "field" && f.L.Name == "Type" && f.R != nil && f.R.Op == "const" {
+						types[f.R.Name] = true
+						found = true
+					}
+				}
+				if !found && depth < 3 && len(pr.Instrs) == 1 {
+					// an empty block that only forwards
+					into(pr, depth+1)
+				} else if !found {
+					types["other:"+pr.String()] = true
 				}
 			}
 		}
+		into(s.Block(), 0)
 	}
 	r.Check("C13.RDATA", "NS/CNAME/PTR:encoder", okN && types["2"] && types["5"] && types["12"] && len(types) == 3, p.Pos(rb.Pos()), "string data of types 2, 5 and 12 (found %v) is encoded as a name by the shared helper", keysOf(types))
 	// OPT
@@ -482,6 +547,7 @@ func c13RData(p *core.Prog, r *core.Run, rb, drr, dht, dopt *ssa.Function, rbS s
 	asc := sort.SliceIsSorted(order, func(i, j int) bool { return order[i] < order[j] })
 	// which field each key carries (from the guards of the key writes)
 	encField := map[int64]string{}
+	var foreign []string
 	for _, s := range callSites(p, lits, `\(\*cryptobyte\.Builder\)\.AddUint16`) {
 		k, ok := s.X.Args[1].ConstInt()
 		if !ok || k < 1 || k > 6 {
@@ -495,10 +561,15 @@ func c13RData(p *core.Prog, r *core.Run, rb, drr, dht, dopt *ssa.Function, rbS s
 			if e.Op == "field" && e.Args[0].Op == "ext" {
 				if _, seen := encField[k]; !seen {
 					encField[k] = e.Name
+				} else if e.Name != encField[k] {
+					// a parameter is written whenever its own field is set: a test of
+					// another field on the way loses it for some records
+					foreign = append(foreign, fmt.Sprintf("key %d also under %s", k, f.String()))
 				}
 			}
 		}
 	}
+	r.Check("C13.RDATA", "HTTPS:keys-independent", len(foreign) == 0, p.Pos(rb.Pos()), "each SvcParam is written exactly when its own field is set %v", foreign)
 	// decoder: key -> field
 	decField := map[int64]string{}
 	for _, b := range dht.Blocks {
@@ -728,14 +799,24 @@ func c13Pointers(p *core.Prog, r *core.Run, nl *ssa.Function) {
 		if iff, ok := b.Instrs[len(b.Instrs)-1].(*ssa.If); ok {
 			x := p.X(iff.Cond)
 			if x.Op == "bin" && strings.Contains(x.String(), "unsafe.Pointer") {
-				// target >= current (or current <= target) refuses: the true edge abandons the name
-				tgt, cur := x.Args[0], x.Args[1]
-				op := x.Name
-				if op == "<=" || op == "<" {
-					tgt, cur, op = cur, tgt, map[string]string{"<=": ">=", "<": ">"}[op]
-				}
-				if op == ">=" && strings.Contains(tgt.String(), ".raw[") && !strings.Contains(cur.String(), ".raw[") {
-					back = true
+				// on the edge that abandons the name (it leads straight to an error
+				// return) the test says target >= current, however it is spelled
+				for si, succ := range b.Succs {
+					ret, isRet := succ.Instrs[len(succ.Instrs)-1].(*ssa.Return)
+					if !isRet || lastResultNil(ret) || b.Succs[0] == b.Succs[1] {
+						continue
+					}
+					f := p.FactOf(core.Guard{Cond: iff.Cond, Pol: si == 0, If: iff})
+					if f.R == nil {
+						continue
+					}
+					tgt, cur, op := f.L, f.R, f.Op
+					if op == "<=" || op == "<" {
+						tgt, cur, op = cur, tgt, map[string]string{"<=": ">=", "<": ">"}[op]
+					}
+					if op == ">=" && strings.Contains(tgt.String(), ".raw[") && !strings.Contains(cur.String(), ".raw[") {
+						back = true
+					}
 				}
 			}
 		}
@@ -847,7 +928,7 @@ func c13Padding(p *core.Prog, r *core.Run, pad, mb *ssa.Function, rbS string) {
 	r.Check("C13.PAD", "padding-option", okOpt, p.Pos(pad.Pos()), "the appended option has code 12 (RFC 7830)")
 }
 
-func c13RCode(p *core.Prog, r *core.Run, rc *ssa.Function) {
+func c13RCode(p *core.Prog, r *core.Run, rc *ssa.Function, rule string) {
 	// the result: one expression with alternatives, or one return per alternative
 	e := &core.Expr{Op: "phi"}
 	seenAlt := map[string]bool{}
@@ -860,7 +941,7 @@ func c13RCode(p *core.Prog, r *core.Run, rc *ssa.Function) {
 		}
 	}
 	if len(e.Args) == 0 {
-		r.Check("C13.RC", "expression", false, p.Pos(rc.Pos()), "no result expression")
+		r.Check(rule, "expression", false, p.Pos(rc.Pos()), "no result expression")
 		return
 	}
 	// alternatives: without OPT (low bits only) and with OPT
@@ -899,5 +980,45 @@ func c13RCode(p *core.Prog, r *core.Run, rc *ssa.Function) {
 			}
 		}
 	}
-	r.Check("C13.RC", "expression", bad == "" && len(e.Alts()) == 2, p.Pos(rc.Pos()), "ResponseCode = low 4 bits of the header rcode, extended by the top 8 bits of the OPT TTL shifted left by 4 (RFC 6891 6.1.3), checked on %d inputs %s", n, bad)
+	r.Check(rule, "expression", bad == "" && len(e.Alts()) == 2, p.Pos(rc.Pos()), "ResponseCode = low 4 bits of the header rcode, extended by the top 8 bits of the OPT TTL shifted left by 4 (RFC 6891 6.1.3), checked on %d inputs %s", n, bad)
+	// the short form (header bits only) is what is returned when the message has
+	// no OPT record - and only then: with one, its upper bits always count (an
+	// extended code like BADVERS has zero header bits)
+	for i, ret := range core.Returns(rc) {
+		noTTL := true
+		x := p.X(ret.Results[0])
+		// (evaluated per way the value gets to the return)
+		var ways []struct {
+			e  *core.Expr
+			fs []core.Fact
+		}
+		if ph, ok := ret.Results[0].(*ssa.Phi); ok {
+			for k, ed := range ph.Edges {
+				ways = append(ways, struct {
+					e  *core.Expr
+					fs []core.Fact
+				}{p.X(ed), append(p.EdgeFacts(ph.Block().Preds[k], ph.Block()), p.Facts(ret.Block())...)})
+			}
+		} else {
+			ways = append(ways, struct {
+				e  *core.Expr
+				fs []core.Fact
+			}{x, p.Facts(ret.Block())})
+		}
+		for k, w := range ways {
+			noTTL = !w.e.Any(func(y *core.Expr) bool { return y.Op == "field" && y.Name == "TTL" })
+			if !noTTL {
+				continue
+			}
+			noOpt := false
+			for _, f := range w.fs {
+				if f.L.Op == "call" && (f.L.Name == "slices.IndexFunc" || f.L.Name == "slices.Index") && f.R != nil {
+					if kk, isK := f.R.ConstInt(); isK && (f.Op == "<" && kk == 0 || f.Op == "==" && kk == -1 || f.Op == "<=" && kk == -1) {
+						noOpt = true
+					}
+				}
+			}
+			r.Check(rule, fmt.Sprintf("short-form-only-without-OPT#%d.%d", i, k), noOpt, p.InstrPos(ret), "the header-bits-only value is returned only when no OPT record was found: %s", short(w.e))
+		}
+	}
 }
